@@ -167,6 +167,18 @@ def snapshot(est):
     }, sort_keys=True)
 
 
+class _Kept:
+    """parameters a caller kept from get_params(), presented like an estimator to snapshot()"""
+
+    def __init__(self, params):
+        self._p = dict(params)
+        for k_, v_ in self._p.items():
+            setattr(self, k_, v_)
+
+    def get_params(self):
+        return dict(self._p)
+
+
 def config_dict(c):
     return {f: repr(getattr(c, f)) for f in ("common_subexpression_elimination", "extra_validation", "max_dt_sec", "innovation_filtering")} | {"python_modules": str(len(c.python_modules))}
 
@@ -385,8 +397,11 @@ def execute(schedule) -> Result:
             elif kind == "restore_params":
                 if ei not in kept:
                     continue
-                params_, snap_ = kept.pop(ei)
+                params_, _snap_then = kept.pop(ei)
                 est.set_params(**params_)
+                # get_params() hands out the parameter objects themselves (scikit-learn convention): what the caller kept is what
+                # those objects hold NOW (a fit in between may have retuned a noise dict in place), and that is what must come back
+                snap_ = snapshot(_Kept(params_))
                 if snapshot(est) != snap_:
                     res.add("C17", "restore", "C17:py:restore_from_kept_params", i, "set_params(**params kept from an earlier get_params()) restores exactly those parameters", _diffkeys(snap_, snapshot(est)))
                 res.stats["probe:restore_from_kept_params"] += 1
